@@ -48,6 +48,9 @@ type LSpec struct {
 	UserPkgUses map[string]string `json:"user_pkg_uses,omitempty"`
 	// PkgNames: directory → package name used by the declaring packages.
 	PkgNames map[string]string `json:"pkg_names"`
+	// CwdDir: the directory (relative to the module root) goverter is invoked in; "" = module
+	// root. `@cwd/` outputs resolve against it (go:generate runs goverter in the package dir).
+	CwdDir string `json:"cwd_dir,omitempty"`
 	// PlainPkgs: directories of user packages without any converter that are nevertheless
 	// selected by the patterns.
 	PlainPkgs []string `json:"plain_pkgs,omitempty"`
@@ -111,7 +114,7 @@ func (s *LSpec) Predict(c *LConv) Predicted {
 		ext := path.Ext(c.File)
 		p.Path = path.Join(c.Dir, strings.TrimSuffix(c.File, ext)+".gen"+ext)
 	case strings.HasPrefix(of, "@cwd/"):
-		p.Path = path.Clean(strings.TrimPrefix(of, "@cwd/"))
+		p.Path = path.Join(s.CwdDir, strings.TrimPrefix(of, "@cwd/"))
 	case strings.HasPrefix(of, RootPlaceholder+"/"):
 		p.Path = path.Clean(strings.TrimPrefix(of, RootPlaceholder+"/"))
 	default:
